@@ -29,6 +29,7 @@ b04bf84); `cfg.rejectNotifies` = workerPool.Submit calls the task's handler when
 import LinVerif.Lemmas.C19Carried
 import LinVerif.Lemmas.C19Recover
 import LinVerif.Lemmas.C19Term
+import LinVerif.Lemmas.C19Pool
 import LinVerif.Generated.C19
 
 namespace LinVerif.Props.C19
@@ -202,26 +203,52 @@ theorem completion_under_rejection_stmt (arg : CompleteArg) : CompletionUnderRej
 /-! ## one request, one response (the leaf request as a whole) -/
 
 /-- **response_exactly_once.** A task request whose pipeline loses no completion under `cfg` gets
-exactly one response — from the completion callback; `Process` returns `nil`, so
-`TaskHandler.process` does not answer a second time — for every stage tree and schedule; and a
-request that is refused before a pipeline exists gets exactly one (from `TaskHandler.process`). -/
-theorem response_exactly_once (cfg : Cfg) (rn tolerated : Bool) (root : Stage) (hc : root.clean cfg = true)
-    (s : State) (hr : Reachable cfg (init root) s) (ht : Terminal s) :
-    (runResponses ⟨false, rn⟩ tolerated s).length = 1 ∧ (noPipelineResponses ⟨false, rn⟩ .refused).length = 1 := by
+exactly one response for every stage tree and schedule — whether or not the group-by tag value
+collect fails and answers first: every responder (the collect, the completion callback) goes through
+`SendResponse`'s CAS, and `Process` returns `nil`, so `TaskHandler.process` does not answer again.
+A request that is refused before a pipeline exists gets exactly one (from `TaskHandler.process`). -/
+theorem response_exactly_once (cfg : Cfg) (rn tolerated collectFails : Bool) (root : Stage)
+    (hc : root.clean cfg = true) (s : State) (hr : Reachable cfg (init root) s) (ht : Terminal s) :
+    (runResponses ⟨false, rn, false⟩ tolerated collectFails s).length = 1 ∧
+      (noPipelineResponses ⟨false, rn, false⟩ .refused).length = 1 := by
   obtain ⟨f, hf, _⟩ := exactly_once_clean cfg root hc s hr ht
   refine ⟨?_, rfl⟩
-  cases tolerated <;> simp [runResponses, hf, responses, Leaf.sendResponse, Leaf.init]
+  cases tolerated <;> cases collectFails <;>
+    simp [runResponses, sendResponseCalls, hf, Leaf.sendResponse, Leaf.init]
 
-/-- … and it carries an error whenever a stage failed or panicked in the run (unless the failure is
-the not-found error the metadata callback answers as an empty result) -/
-theorem response_error_carried (sr rn : Bool) (root : Stage) (hc : root.clean ⟨.first, sr, rn⟩ = true)
-    (s : State) (hr : Reachable ⟨.first, sr, rn⟩ (init root) s) (ht : Terminal s) (hf : s.sh.failed = true) :
-    runResponses ⟨false, rn⟩ false s = [true] := by
+/-- … and it carries an error whenever a stage failed or panicked in the run or the collect failed
+(unless the failure is the not-found error the metadata callback answers as an empty result) -/
+theorem response_error_carried (sr rn collectFails : Bool) (root : Stage) (hc : root.clean ⟨.first, sr, rn⟩ = true)
+    (s : State) (hr : Reachable ⟨.first, sr, rn⟩ (init root) s) (ht : Terminal s)
+    (hf : s.sh.failed = true ∨ collectFails = true) :
+    runResponses ⟨false, rn, false⟩ false collectFails s = [true] := by
   rcases invNP_reachable hc hr with hi | hm
   · exact absurd ht (initPhase_not_terminal hi)
   · obtain ⟨f, hfd, _, _, _, _, hfb⟩ := mainNP_terminal hm (invOnce_reachable hr) ht
-    have harg : f.arg = true := error_carried sr rn root s hr f (by rw [hfd]; simp) (by rw [hfb]; exact hf)
-    simp [runResponses, hfd, responses, Leaf.sendResponse, Leaf.init, harg]
+    cases hcf : collectFails with
+    | true => simp [runResponses, sendResponseCalls, hfd, Leaf.sendResponse, Leaf.init]
+    | false =>
+      have hfl : s.sh.failed = true := by
+        rcases hf with h | h
+        · exact h
+        · rw [hcf] at h; cases h
+      have harg : f.arg = true := error_carried sr rn root s hr f (by rw [hfd]; simp) (by rw [hfb]; exact hfl)
+      simp [runResponses, sendResponseCalls, hfd, Leaf.sendResponse, Leaf.init, harg]
+
+/-! ## Submit racing Stop (internal/concurrent/pool.go) -/
+
+/-- **reject_xor_execute.** `workerPool.Submit` as it is (no re-check of `Stopped()` after the send):
+whatever the interleaving of the Submit call — including a send that stays blocked on the full queue
+for any time — with `Pool.Stop()`, a cancellation of the context and the consumers of the queue, the
+task is never both rejected and executed, it is executed at most once and rejected at most once.
+(Rejecting calls the stage's `errHandle`, executing completes the stage too: both would complete the
+stage twice and take `pending` below zero.) -/
+theorem reject_xor_execute (es : List PoolSubmit.Ev) (s : PoolSubmit.St)
+    (h : PoolSubmit.run false PoolSubmit.init es = some s) :
+    ¬ (s.rejected ≥ 1 ∧ s.executed ≥ 1) ∧ s.executed ≤ 1 ∧ s.rejected ≤ 1 := by
+  have hc := PoolSubmit.count_le_one (PoolSubmit.inv_run es _ s PoolSubmit.inv_init h)
+  simp only [PoolSubmit.count] at hc
+  refine ⟨fun ⟨h1, h2⟩ => ?_, ?_, ?_⟩ <;> omega
 
 /-! ## non-vacuity -/
 
@@ -343,8 +370,22 @@ theorem plan_panic_pooled_nonroot :
 would be answered twice (the seeded change c19-6): the callback's response and the handler's -/
 theorem two_responses_if_process_returns_error :
     (runSched ⟨.first, true, true⟩ (init treeS) (List.replicate 14 0)).map
-      (fun s => (terminalB s, runResponses ⟨true, true⟩ false s, runResponses ⟨false, true⟩ false s))
+      (fun s => (terminalB s, runResponses ⟨true, true, false⟩ false false s, runResponses ⟨false, true, false⟩ false false s))
       = some (true, [true, true], [true]) := by decide
+
+/-- with a re-check of `Stopped()` after the send (the seeded change c19-7) a task whose Submit was
+past the first check when `Stop()` came is rejected by the re-check AND executed by the drain -/
+theorem rejected_and_executed_with_recheck :
+    PoolSubmit.run true PoolSubmit.init [.submitCheck, .stop, .submitSend, .submitRecheck, .consume]
+      = some ⟨.done, true, false, false, 1, 1⟩ := by decide
+
+/-- if the failing group-by collect answered through the unguarded `sendResponse` (the seeded change
+c19-8), the CAS would not be taken and the completion callback would answer the same request again:
+every stage succeeds, two responses -/
+theorem two_responses_if_collect_is_unguarded :
+    (runSched ⟨.first, true, true⟩ (init (Stage.mk .inline false .ok [])) (List.replicate 8 0)).map
+      (fun s => (terminalB s, runResponses ⟨false, true, true⟩ false true s, runResponses ⟨false, true, false⟩ false true s))
+      = some (true, [true, false], [true]) := by decide
 
 /-- the same panic in the pooled child's own task is recovered and completed -/
 theorem recovered_pooled_panic :
@@ -372,6 +413,8 @@ theorem tie_baseStageIsAsync : Generated.C19.baseStageIsAsyncSteps = baseStageIs
 theorem tie_execTask : Generated.C19.execTaskSteps = execTaskOrder := by decide
 theorem tie_submit : Generated.C19.submitSteps = submitOrder currentCfg.rejectNotifies := by decide
 theorem tie_reject : Generated.C19.rejectSteps = rejectOrder currentCfg.rejectNotifies := by decide
+/-- `Submit` does nothing after `p.tasks <- task` (hypothesis `recheck = false` of `reject_xor_execute`) -/
+theorem tie_submitNoRecheck : Generated.C19.submitRechecksStopped = false := by decide
 theorem tie_sendResponse : Generated.C19.sendResponseSteps = sendResponseOrder := by decide
 theorem tie_leafProcess : Generated.C19.leafProcessSteps = leafProcessOrder := by decide
 theorem tie_leafProcessDataSearch : Generated.C19.leafProcessDataSearchSteps = leafProcessDataSearchOrder := by decide
@@ -381,6 +424,11 @@ theorem tie_taskHandlerProcess : Generated.C19.taskHandlerProcessSteps = taskHan
 /-- after the pipeline was executed `processDataSearch` / `processMetadataSuggest` return `nil`: only the
 completion callback answers (hypothesis of `response_exactly_once`) -/
 theorem tie_processReturnsNil : Generated.C19.processReturnsPipelineErr = false := by decide
+/-- nobody but `SendResponse` calls the unguarded `sendResponse`: every responder goes through the CAS
+(hypothesis `collectUnguarded = false` of `response_exactly_once`) -/
+theorem tie_noUnguardedResponder : Generated.C19.unguardedSendResponseCallers = [] := by decide
+theorem tie_collectGroupByTagValues :
+    Generated.C19.collectGroupByTagValuesSteps = collectGroupByTagValuesOrder := by decide
 
 /-- what the model decides about error propagation for the source as it is *now*: with the
 repaired step order the full-strength theorem applies, with the original one its negation -/
